@@ -159,6 +159,7 @@ func genC05(env *core.Env, emit func(core.Case)) {
 		tlsOK := false
 		if res.Err == "-" && !res.Accepted {
 			outcome = "passthrough"
+			s.Names() // ... and what the Conn reports stays what the hello says, whatever the caller did with an earlier answer
 			d := drain(s, []int{[]int{3, 512, 70000}[r.IntN(3)]}, 100000)
 			if len(d.Data) >= len(rec) {
 				del := d.Data[:len(rec)]
